@@ -28,14 +28,17 @@ SigSites == {"ske12", "ske12srp", "cv12", "scv13", "ccv13", "phacv", "dcsig", "d
 \* "replayed": the server asks for post-handshake authentication a second time and the peer answers with the flight
 \*           (Certificate, CertificateVerify, Finished) it sent for the FIRST request: a genuine proof, but not for
 \*           this request - each certificate_request_context is good for one answer
+\* "unadvertised": a correct signature by the right key over the right data, made with a hash the verifier did not
+\*           list in signature_algorithms (MD5, SHA-1, SHA-224 against a verifier that offered SHA-256 only)
 Classes == {"none", "bitflip", "empty", "trunc", "extend", "otherkey", "otherdata", "declother", "wrongsecret", "absent", "stale",
-            "degenerate", "misplaced", "replayed"}
+            "degenerate", "misplaced", "replayed", "unadvertised"}
 KeyTypes == {"rsa", "ecdsa", "dsa", "ed25519", "rsapss", "p384", "p521", "ed448", "bp256", "-"}
 
 \* which (site, class, key type, version) combinations exist
 Meaningful(c) ==
   /\ (c.site \in SigSites => c.cls \in {"none", "bitflip", "empty", "trunc", "extend", "otherkey", "otherdata", "declother", "degenerate",
-                                          "misplaced", "replayed"})
+                                          "misplaced", "replayed", "unadvertised"})
+  /\ (c.cls = "unadvertised" => c.site = "ske12" /\ c.ver = 3 /\ c.kt \in {"rsa", "ecdsa"})
   /\ (c.cls = "misplaced" => c.site = "dcsig")
   \* degenerate (r, s) pairs exist for the (EC)DSA family only
   /\ (c.site \in SigSites /\ c.cls = "degenerate" => c.kt \in {"dsa", "ecdsa", "p384", "p521", "bp256"})
